@@ -317,6 +317,10 @@ func TestDuplicates(t *testing.T) {
 			if len(tree) > n {
 				inner := tree[gen.Uniform(rt, n, len(tree)-1, "innernode")]
 				i := gen.Uniform(rt, 0, n-1, "innerat")
+				if gen.Chance(rt, 50, "firstinner") {
+					// the very first inner node (the parent of the first two leaves), placed behind them so that it stays what it is
+					inner, i = tree[n], gen.Uniform(rt, 2, n-1, "firstinnerat")
+				}
 				if len(inner) == width {
 					ls[i] = inner
 					hs[i] = leaf(inner)
@@ -352,6 +356,43 @@ func TestDuplicates(t *testing.T) {
 			o := ls[i][:width-1] + map[bool]string{true: "0", false: "1"}[ls[i][width-1] != '0']
 			if util.VerifyMerklePath(o, p, root) {
 				rt.Fatalf("path %d verifies a leaf string that differs in its last character (width %d)", i, width)
+			}
+		}
+		// lookups in any order: each leaf is looked up right after the last leaf was
+		for i := 0; i < n; i++ {
+			_ = mt.GetPath(hs[n-1])
+			p := mt.GetPath(hs[i])
+			if p.LeafIndex < 0 || p.LeafIndex >= n || ls[p.LeafIndex] != ls[i] || !util.VerifyMerklePath(ls[i], p, root) {
+				rt.Fatalf("lookup of leaf %d right after a lookup of the last leaf: position %d of %d, verifies %v", i, p.LeafIndex, n, util.VerifyMerklePath(ls[i], p, root))
+			}
+		}
+		// a longer list with the same root (the tail that the odd levels duplicate anyway is spelled out) is loaded
+		// into this object: from then on it is that longer tree
+		if n%4 == 2 || n%2 == 1 {
+			padded := append(append([]string(nil), ls...), ls[n-1])
+			if n%4 == 2 {
+				padded = append(append([]string(nil), ls...), ls[n-2], ls[n-1])
+			}
+			var phs []util.Hashable
+			for _, l := range padded {
+				phs = append(phs, leaf(l))
+			}
+			src := &util.MerkleTree{}
+			src.ComputeTree(phs)
+			if src.GetRoot() == root {
+				if err := mt.SetTree(len(padded), append([]string(nil), src.GetTree()...)); err != nil {
+					rt.Fatalf("SetTree of the %d-leaf tree with the same root into the object holding the %d-leaf tree: %v", len(padded), n, err)
+				}
+				if fmt.Sprint(mt.GetTree()) != fmt.Sprint(src.GetTree()) {
+					rt.Fatalf("after loading a %d-leaf tree into the object that held a %d-leaf tree with the same root, the object exports another tree than it was given", len(padded), n)
+				}
+				for i := range padded {
+					p := mt.GetPathByIndex(i)
+					if p.LeafIndex != i || !util.VerifyMerklePath(padded[i], p, root) || !refVerify(padded[i], p.Nodes, i, root) {
+						rt.Fatalf("after loading a %d-leaf tree over a %d-leaf tree with the same root: path of position %d does not verify", len(padded), n, i)
+					}
+				}
+				ev.Class("longer-tree-with-the-same-root-loaded-over", 1)
 			}
 		}
 		ev.Case(fmt.Sprintf("dup%v", idx), dups > 0 && n&(n-1) != 0, "duplicates")
